@@ -1,6 +1,6 @@
 #!/bin/bash
 # tools/sweep.sh <tier> <seed...> : run every claimed check for the given seeds on /repo; prints one line per run
-cd /verif
+cd "$(dirname "$(readlink -f "$0")")/.."
 tier=$1; shift
 for s in "$@"; do
   for p in $(cat harness/claimed.txt); do
